@@ -52,8 +52,26 @@ def class_query(prefix, cls, keying, dec, nlen=16, counter=0, altlen=7, altnull=
     return q
 
 
-def c17_queries(tier):
+def gen_hx(which):
+    def g(run_dir, q):
+        out, adp = irgen.cpp_unit(run_dir, "hx", [os.path.join(vlib.VERIF, "harness/C17/hx_wrap.cpp")], null_gep=True)
+        return adp if which else out
+    return g
+
+
+def hx_queries(tier):
     qs = []
+    for fam, fn in ((0, "xof"), (1, "xofa"), (2, "hash"), (3, "hasha")):
+        for n in ((0, 16, 32, 48) if fam <= 1 else (0,)):
+            name = "cpp-hx:%s%s" % (fn, ("<%d>" % n) if fam <= 1 else "")
+            qs.append(Query(name, "harness/C17/hx.c", extra_srcs=["harness/common/ir_env.c"], backend="c64", with_backend=False, with_spec=False,
+                            gen_srcs=[gen_hx(0), gen_hx(1)], defs={"FAM": fam, "N": n}, unwind=40, timeout=600,
+                            shape={"class": fn, "template_outlen": n, "level": "call interface", "members": "all documented except std::string overloads"}))
+    return qs
+
+
+def c17_queries(tier):
+    qs = hx_queries(tier)
     for cls in range(12):
         for keying in (0, 1, 2, 3, 4, 6, 7) + ((5,) if 6 <= cls <= 8 else ()):
             for dec in ((0, 1) if (tier == "thorough" or keying in (1, 2)) else (0,)):
@@ -69,23 +87,13 @@ def KLEN(cls):
 
 def c14_queries(tier):
     qs = []
-    for cls in ([0, 5, 9] if tier == "quick" else range(12)):
-        if 6 <= cls <= 8 and tier == "quick":
-            continue
-        for nlen in ([0, 5, 16, 20] if cls in (0, 5) or tier == "thorough" else [16]):
-            qs.append(class_query("cpp-nonce", cls, 1, 0, nlen=nlen))
-        qs.append(class_query("cpp-nonce", cls, 1, 1, nlen=16))
-        qs.append(class_query("cpp-nonce", cls, 1, 0, counter=1))
-    return qs
-
-
-def c13_queries(tier):
-    qs = []
     for cls in range(12):
-        for use_clear in (0, 1):
-            qs.append(Query("cpp-wipe:%s:%s" % (CLSN[cls], "clear" if use_clear else "destructor"), "harness/C13/cpp_wipe.c", extra_srcs=["harness/common/ir_env.c"],
-                            backend="c64", with_backend=False, with_spec=False, gen_srcs=[gen_cpp, gen_adp], defs={"CLS": cls, "USE_CLEAR": use_clear},
-                            shape={"class": CLSN[cls], "operation": "clear()" if use_clear else "destructor", "ir": "clang -O2 whole-module"}, unwind=300, timeout=600))
+        # every class has its own set_nonce: zero length and a short nonce on each (quick), all four shapes (thorough)
+        for nlen in ([0, 5, 16, 20] if cls in (0, 5) or tier == "thorough" else [0, 5]):
+            qs.append(class_query("cpp-nonce", cls, 1, 0, nlen=nlen))
+        if tier == "thorough" or cls in (0, 5, 9):
+            qs.append(class_query("cpp-nonce", cls, 1, 1, nlen=16))
+            qs.append(class_query("cpp-nonce", cls, 1, 0, counter=1))
     return qs
 
 
@@ -113,6 +121,13 @@ def canon_pat(a, b, c):
             ren[x] = len(ren)
         out.append(ren[x])
     return out[0] * 100 + out[1] * 10 + out[2]
+
+
+def c16_queries(tier):
+    """read-only members of the NO_STL byte_array leave the object and the shared buffer bit-identical (constant inputs may be shared between threads)"""
+    pats = sorted(set(canon_pat(*sorted((a, b, c))) for a in range(4) for b in range(4) for c in range(4)))
+    return [ba_query("byte_array-readonly:pat%03d" % pat, {"KIND": 5, "PAT": pat}, {"sharing_pattern": "%03d" % pat, "members": "size, empty, const operator[], == != < <= > >="},
+                     timeout=1200, cost=40) for pat in pats if pat != 0 or True]
 
 
 def c20_queries(tier):
